@@ -102,10 +102,16 @@ def grammar_errors(text):
     lx = malLexer(InputStream(text))
     lx.removeErrorListeners()
     lx.addErrorListener(c)
-    ps = malParser(CommonTokenStream(lx))
+    ts = CommonTokenStream(lx)
+    ps = malParser(ts)
     ps.removeErrorListeners()
     ps.addErrorListener(c)
     ps.mal()
+    # the start rule has no EOF: the parser stops silently in front of a token that cannot begin a declaration.
+    # A text is a sentence of the grammar only if nothing is left over.
+    from antlr4 import Token
+    if c.n == 0 and ts.LT(1).type != Token.EOF:
+        return 1
     return c.n
 
 
